@@ -301,9 +301,12 @@ func (pool *BlockPool) SetPeerRange(peerID p2p.ID, base int64, height int64) {
 		pool.peers[peerID] = peer
 	}
 
-	if height > pool.maxPeerHeight {
-		pool.maxPeerHeight = height
-	}
+	// maxPeerHeight is the maximum of what the peers report NOW. A peer can lower
+	// its claim (peer.height is overwritten above): only ever raising the maximum
+	// here, while removePeer recomputes it only when the removed peer's height is
+	// the maximum, would leave a phantom maximum behind for ever, and IsCaughtUp
+	// would never hold again.
+	pool.updateMaxPeerHeight()
 }
 
 // RemovePeer removes the peer with peerID from the pool. If there's no peer
